@@ -149,3 +149,49 @@ fn sgr_to_ansi_color() {
         assert!(r.is_none(), "to_ansi_color rejects other digits");
     }
 }
+
+// ---- recording stand-in for the styled-run extractor (`next_bytes`): arbitrary runs ----
+//
+// The console stream (C18) only routes the runs the extractor yields; which runs those are is
+// C02 + C07.  This stand-in yields up to two runs with arbitrary styles and 1-2 byte texts and
+// records them, so that `wincon::write_all` / `write` are verified for every extractor answer.
+
+pub(crate) const RUNS_MAX: usize = 2;
+pub(crate) static mut RUN_N: usize = 0;
+pub(crate) static mut RUN_TOTAL: usize = 0;
+pub(crate) static mut RUN_STYLE: [Option<anstyle::Style>; RUNS_MAX] = [None; RUNS_MAX];
+pub(crate) static mut RUN_PTR: [usize; RUNS_MAX] = [0; RUNS_MAX];
+pub(crate) static mut RUN_LEN: [usize; RUNS_MAX] = [0; RUNS_MAX];
+pub(crate) static mut EXTRACT_CALLS: usize = 0;
+
+pub(crate) fn wincon_next_recorder(
+    bytes: &mut &[u8],
+    _parser: &mut anstyle_parse::Parser,
+    _capture: &mut WinconCapture,
+) -> Option<(anstyle::Style, String)> {
+    unsafe {
+        EXTRACT_CALLS += 1;
+        if EXTRACT_CALLS == 1 {
+            RUN_TOTAL = vk::any_usize_in(0, RUNS_MAX);
+        }
+        if RUN_N >= RUN_TOTAL {
+            // exhausted: the whole chunk has been consumed
+            let all: &[u8] = *bytes;
+            let (_, rest) = all.split_at(all.len());
+            *bytes = rest;
+            return None;
+        }
+        let style = style_of(&any_astyle());
+        let mut text = String::with_capacity(2);
+        text.push((vk::any_u8_in(0x20, 0x7e)) as char);
+        if vk::any_bool() {
+            text.push((vk::any_u8_in(0x20, 0x7e)) as char);
+        }
+        let i = RUN_N;
+        RUN_STYLE[i] = Some(style);
+        RUN_PTR[i] = text.as_ptr() as usize;
+        RUN_LEN[i] = text.len();
+        RUN_N += 1;
+        Some((style, text))
+    }
+}
